@@ -181,6 +181,11 @@ def c12():
     return R
 
 try:
-    {"c09": c09, "c10": c10, "c12": c12}[a.prop]().write(a.out)
+    try: rep = {"c09": c09, "c10": c10, "c12": c12}[a.prop]()
+    except Exception as ex:        # an exception escaping from the code under test is a failing case, not a harness crash
+        import traceback
+        rep = Report(f"{a.prop}_runtime", a.prop.upper(), "aborted"); rep.evaluations = 1
+        rep.fail(f"{a.prop}.code_under_test_raised", f"{type(ex).__name__} raised by the code under test", {"see": "traceback"}, traceback.format_exc()[-900:], "no exception")
+    rep.write(a.out)
 finally:
     shutil.rmtree(base, ignore_errors=True)
